@@ -173,6 +173,71 @@ class _Desugar(ast.NodeTransformer):
                 setattr(node, fld, _counting_while(b))
         return node
 
+    def visit_Match(self, node):
+        """`match subject:` over literal / None / class / mapping-key / wildcard patterns (with guards) is the if/elif chain that tests
+        the same things in the same order; anything else (sequence patterns, captures inside class patterns) is left alone and the
+        analyses treat it as an unknown statement."""
+        node = self.generic_visit(node)
+        subj = node.subject
+        if not isinstance(subj, (ast.Name, ast.Attribute)):
+            return node
+
+        def S():
+            import copy
+            return copy.deepcopy(subj)
+
+        def test_of(pat):
+            """(test expression or None for 'always', bindings) or raise ValueError"""
+            if isinstance(pat, ast.MatchValue):
+                return ast.Compare(left=S(), ops=[ast.Eq()], comparators=[pat.value]), []
+            if isinstance(pat, ast.MatchSingleton):
+                return ast.Compare(left=S(), ops=[ast.Is()], comparators=[ast.Constant(pat.value)]), []
+            if isinstance(pat, ast.MatchClass) and not pat.patterns and not pat.kwd_patterns:
+                return ast.Call(func=ast.Name(id="isinstance", ctx=ast.Load()), args=[S(), pat.cls], keywords=[]), []
+            if isinstance(pat, ast.MatchOr):
+                parts = [test_of(q) for q in pat.patterns]
+                if any(b for _, b in parts) or any(t is None for t, _ in parts):
+                    raise ValueError
+                clss = [t.args[1] for t, _ in parts if isinstance(t, ast.Call)]
+                if len(clss) == len(parts):
+                    return ast.Call(func=ast.Name(id="isinstance", ctx=ast.Load()),
+                                    args=[S(), ast.Tuple(elts=clss, ctx=ast.Load())], keywords=[]), []
+                return ast.BoolOp(op=ast.Or(), values=[t for t, _ in parts]), []
+            if isinstance(pat, ast.MatchAs) and pat.pattern is None:
+                if pat.name is None:
+                    return None, []
+                return None, [ast.Assign(targets=[ast.Name(id=pat.name, ctx=ast.Store())], value=S())]
+            if isinstance(pat, ast.MatchMapping) and pat.rest is None and all(isinstance(k, ast.Constant) for k in pat.keys) and all(
+                    isinstance(v, ast.MatchAs) and v.pattern is None for v in pat.patterns):
+                tests = [ast.Compare(left=k, ops=[ast.In()], comparators=[S()]) for k in pat.keys]
+                binds = [ast.Assign(targets=[ast.Name(id=v.name, ctx=ast.Store())], value=ast.Subscript(value=S(), slice=k, ctx=ast.Load()))
+                         for k, v in zip(pat.keys, pat.patterns) if v.name is not None]
+                return (tests[0] if len(tests) == 1 else ast.BoolOp(op=ast.And(), values=tests)), binds
+            raise ValueError
+        try:
+            arms = []
+            for c in node.cases:
+                t, binds = test_of(c.pattern)
+                if c.guard is not None:
+                    if binds:
+                        raise ValueError      # the guard may read the captured names
+                    t = c.guard if t is None else ast.BoolOp(op=ast.And(), values=[t, c.guard])
+                arms.append((t, binds + list(c.body)))
+        except ValueError:
+            return node
+        chain = None
+        for t, body in reversed(arms):
+            if t is None:
+                chain = list(body)
+            else:
+                chain = [ast.If(test=t, body=body, orelse=chain or [])]
+        if not chain:
+            return node
+        out = [ast.copy_location(x, node) if not hasattr(x, "lineno") else x for x in chain]
+        for x in out:
+            ast.fix_missing_locations(ast.copy_location(x, node) if not hasattr(x, "lineno") else x)
+        return out if len(out) > 1 else out[0]
+
     def visit_FunctionDef(self, node):
         # locals bound exactly once to np.flatnonzero(M) / np.nonzero(M)[0] / np.where(M)[0]: a loop over such a local is a loop over
         # the positions where M holds
